@@ -778,6 +778,24 @@ def A(x):
     return np.asarray(x)
 
 
+_SIZES = [32, 128, 512, 2048, 8192, 32768, 131072, 524288]
+
+
+def P(fn, arr, *a, axis=1, **kw):
+    """call ``fn`` on the whole-level batch ``arr`` (k, n), padded along the batch axis to a
+    canonical length by repeating the first column (the padded part of the result is cut off).
+    Purpose: JAX compiles every eager operation once per array shape — canonical batch lengths
+    let the compiled kernels be reused across levels and cases."""
+    n = arr.shape[1]
+    m = next((x for x in _SIZES if x >= n), n)
+    if m != n and n > 0:
+        arr = np.concatenate([arr, np.repeat(arr[:, :1], m - n, axis=1)], axis=1)
+    out = A(fn(arr, *a, **kw))
+    if m != n and n > 0 and out.ndim > axis and out.shape[axis] == m:
+        out = out[(slice(None),) * axis + (slice(0, n),)]
+    return out
+
+
 def case(ck, i):
     rng = ck.rng()
     fam, g, ref, desc = gen_grid(ck, rng)
@@ -861,7 +879,7 @@ def case(ck, i):
         # ---- refined set ---------------------------------------------------------------------
         rmask = ref.refined(l, idx) if l < depth else np.zeros(n, bool)
         try:
-            o_ref = A(ga._is_index_refined(idx))
+            o_ref = P(ga._is_index_refined, idx, axis=0)
         except IndexError:
             if l < depth:
                 raise
@@ -890,13 +908,13 @@ def case(ck, i):
                     pass
 
         # ---- coordinates, volumes --------------------------------------------------------------
-        coord = A(ga.index2coord(idx))
+        coord = P(ga.index2coord, idx)
         eq_flt("index2coord", "ref_coord", coord, ref.coords(l, idx), l)
-        back = A(ga.coord2index(coord))
+        back = P(ga.coord2index, coord)
         ck.hit("inv_coord_roundtrip", n)
         if back.shape != idx.shape or not np.array_equal(back.astype(np.int64), idx):
             bad("coord-roundtrip", f"coord2index(index2coord(i)) != i at level {l}", level=l)
-        vol = A(ga.index2volume(idx))
+        vol = P(ga.index2volume, idx)
         exp_vol = ref.volume(l, idx)
         try:
             vol_b = np.broadcast_to(vol.reshape(vol.shape[-1]) if vol.ndim else vol, (n,))
@@ -921,11 +939,11 @@ def case(ck, i):
 
         # ---- parent ------------------------------------------------------------------------------
         if l > 0:
-            par = A(ga.parent(idx))
+            par = P(ga.parent, idx)
             okp = eq_int("parent", "ref_parent", par, ref.parent(l, idx), l)
             # centre of a child lies in its parent's cell
             ck.hit("inv_child_in_parent_cell", n)
-            cidx = A(levels[l - 1].coord2index(coord)).astype(np.int64)
+            cidx = P(levels[l - 1].coord2index, coord).astype(np.int64)
             if okp and (cidx.shape != par.shape or not np.array_equal(cidx, par.astype(np.int64))):
                 bad("child-outside-parent-cell", f"coarse coord2index of a level-{l} pixel centre is "
                     "not its parent", level=l)
@@ -958,7 +976,7 @@ def case(ck, i):
         obs_children_prev = None
         if l < depth:
             ridx = idx[:, rmask]
-            ch = A(ga.children(ridx))
+            ch = P(ga.children, ridx)
             exp_ch = ref.children(l, ridx)
             eq_int("children", "ref_children", ch, exp_ch, l)
             obs_children_prev = ch
@@ -969,11 +987,11 @@ def case(ck, i):
                 nshp = ref.shape(l + 1)
                 if np.all((flat >= 0) & (flat < nshp[:, None])):
                     ck.hit("inv_parent_of_children", flat.shape[1])
-                    pc = A(nxt.parent(flat)).astype(np.int64).reshape(ch.shape)
+                    pc = P(nxt.parent, flat).astype(np.int64).reshape(ch.shape)
                     exp_pc = ridx.reshape(ridx.shape + (1,) * (ch.ndim - 2))
                     if not np.array_equal(pc, np.broadcast_to(exp_pc, ch.shape)):
                         bad("parent-of-children", f"parent(children(i)) != i at level {l}", level=l)
-                    cv = A(nxt.index2volume(flat))
+                    cv = P(nxt.index2volume, flat)
                     cv = np.broadcast_to(cv.reshape(-1) if cv.size > 1 else cv.reshape(1),
                                          (flat.shape[1],)).reshape(nr, -1).sum(axis=1)
                     pv = vol_b[rmask]
@@ -989,7 +1007,7 @@ def case(ck, i):
         # ---- neighbourhoods ------------------------------------------------------------------------
         for _w in range(2):
             w = ref.gen_window(rng, l)
-            nb = A(ga.neighborhood(idx, w))
+            nb = P(ga.neighborhood, idx, w)
             exp_nb, must, soft, inr = ref.nbh(l, idx, w)
             ck.hit("ref_neighborhood")
             if nb.shape != exp_nb.shape:
@@ -1027,7 +1045,7 @@ def case(ck, i):
                 if ll < 0 or ll > depth:
                     continue
                 midx = prod.all_indices(ll)
-                fo = A(ga.index2flatindex(midx, shiftl)).astype(np.int64)
+                fo = P(ga.index2flatindex, midx, shiftl).astype(np.int64)
                 exp_f = Flat.flat(ref, ll, midx)[None]
                 eq_int(f"index2flatindex", "flat_bijection", fo, exp_f, l)
                 size = int(np.prod(prod.shape(ll)))
@@ -1036,10 +1054,10 @@ def case(ck, i):
                         bad("flatindex-not-bijective", f"index2flatindex(levelshift={shiftl}) is not "
                             f"a bijection onto range(size) at level {l}", level=l)
                 fi = np.arange(size, dtype=np.int64)[None]
-                mo = A(ga.flatindex2index(fi, shiftl)).astype(np.int64)
+                mo = P(ga.flatindex2index, fi, shiftl).astype(np.int64)
                 eq_int("flatindex2index", "flat_bijection", mo, Flat.unflat(ref, ll, fi[0]), l)
                 if mo.shape == (prod.nd, size):
-                    bk = A(ga.index2flatindex(mo, shiftl)).astype(np.int64)
+                    bk = P(ga.index2flatindex, mo, shiftl).astype(np.int64)
                     if not np.array_equal(bk, fi):
                         bad("flatindex-roundtrip", f"index2flatindex(flatindex2index(f)) != f "
                             f"(levelshift={shiftl}) at level {l}", level=l)
@@ -1077,7 +1095,7 @@ def case(ck, i):
                         f"call at level {l}", level=l)
             w = ref.gen_window(rng, l)
             n1 = A(ga.neighborhood(one, w)).astype(np.int64)
-            nb = A(ga.neighborhood(idx, w)).astype(np.int64)
+            nb = P(ga.neighborhood, idx, w).astype(np.int64)
             if not np.array_equal(n1, nb[:, j]):
                 bad("unbatched-neighborhood", f"neighborhood of a single index differs from the "
                     f"batched call at level {l}", level=l)
